@@ -175,6 +175,65 @@ def gen_schedules(rng, quick):
     return out
 
 
+def wall_case(args):
+    """real time, no interposition: a silent (or late-talking) peer, T with a fractional part, select and poll"""
+    kind, use_poll, T, talk_at = args
+    import time as _t, threading
+    from pexpect import fdpexpect
+    res = {'kind': kind, 'use_poll': use_poll, 'T': T, 'talk_at': talk_at}
+    try:
+        if kind == 'pty':
+            child = pexpect.spawn('/bin/sh', ['-c', 'sleep %s; echo m; sleep 5' % talk_at if talk_at else 'sleep 5'], use_poll=use_poll, echo=False)
+            closer = lambda: child.close(force=True)
+        else:
+            r, w = os.pipe()
+            child = fdpexpect.fdspawn(r, use_poll=use_poll)
+            th = None
+            if talk_at:
+                th = threading.Timer(talk_at, lambda: os.write(w, b'm'))
+                th.start()
+            closer = lambda: (th and th.cancel(), os.close(w), os.close(r))
+        t0 = _t.time()
+        try:
+            child.expect_exact(b'm', timeout=T)
+            res['outcome'] = 'match'
+        except pexpect.TIMEOUT:
+            res['outcome'] = 'TIMEOUT'
+        except pexpect.EOF:
+            res['outcome'] = 'EOF'
+        res['elapsed'] = round(_t.time() - t0, 3)
+        closer()
+    except Exception:
+        res['error'] = traceback.format_exc()
+    return res
+
+
+def wall_clock(ctx, pool):
+    jobs = []
+    for kind in ('pty', 'pipe'):
+        for use_poll in (False, True):
+            for T in (0.4, 0.8, 1.5):
+                jobs.append((kind, use_poll, T, None))
+            jobs.append((kind, use_poll, 0.9, 0.3))
+    outs = pool.map(wall_case, jobs, chunksize=1)
+    for o in outs:
+        if 'error' in o:
+            raise tlc.TLCError('wall-clock run crashed: %s' % o['error'])
+        case = {'wall_clock': True, 'transport': o['kind'], 'use_poll': o['use_poll'], 'T': o['T'], 'peer_talks_at': o['talk_at']}
+        sig = {'transport': o['kind'], 'wall_clock': True}
+        if o['talk_at']:
+            if o['outcome'] != 'match' or o['elapsed'] > o['T']:
+                ctx.fail('C05:match-arrived-before-deadline-but-not-reported', case, detail=o, signature=sig)
+        else:
+            if o['outcome'] != 'TIMEOUT':
+                ctx.fail('C05:other-exception', case, detail=o, signature=sig)
+            elif o['elapsed'] < o['T'] - 0.02:
+                ctx.fail('C05:timeout-before-deadline', case, detail=o, signature=sig)
+            elif o['elapsed'] > o['T'] + 0.5:
+                ctx.fail('C05:returned-after-deadline', case, detail=o, signature=sig)
+    return len(outs)
+
+
 def run(ctx):
     if ctx.replay:
         return replay(ctx)
@@ -235,7 +294,10 @@ def run(ctx):
                     tid += 1
         t0 = time.time()
         recs = pool.map(execute, jobs, chunksize=4)
+        nwall = wall_clock(ctx, pool)
     ctx.note('%d timed executions of %d entry points on %d transports in %.0fs' % (len(recs), len(ENTRIES), len(TRANSPORTS), time.time() - t0))
+    ctx.note('%d wall-clock runs (pty and pipe, select and poll, T in {0.4, 0.8, 1.5} s with a silent peer, a match arriving 0.3 s into a 0.9 s wait): '
+             'TIMEOUT not before T, not later than T + 0.5 s' % nwall)
     errs = [r for r in recs if 'error' in r]
     if errs:
         raise tlc.TLCError('timed execution crashed: %s\n%s' % ({k: errs[0].get(k) for k in ('transport', 'entry', 'targ', 'start', 'events', 'k')}, errs[0]['error']))
@@ -361,6 +423,15 @@ def replay(ctx):
     c = d['case']
     if 'schedule' in c:
         return TR.replay(ctx)
+    if c.get('wall_clock'):
+        o = wall_case((c['transport'], c['use_poll'], c['T'], c['peer_talks_at']))
+        print(json.dumps(o))
+        bad = (o['peer_talks_at'] if 'peer_talks_at' in o else o['talk_at'])
+        ok = (o['outcome'] == 'match' and o['elapsed'] <= o['T']) if o['talk_at'] else (o['outcome'] == 'TIMEOUT' and o['T'] - 0.02 <= o['elapsed'] <= o['T'] + 0.5)
+        if not ok:
+            print('VIOLATION property=C05 replay=%s' % ctx.replay)
+            return 1
+        return 0
     r = execute((ctx.work, 1, c['transport'], c['entry'], c['targ'], c['start'], [tuple(e) for e in c['events']], c.get('k', 0)))
     print(json.dumps(r, indent=1))
     t = {'id': 1, 'entry': 'expect' if r['entry'] == 'read_nonblocking' else r['entry'], 'targ': r['targ'], 'start': r['start'],
